@@ -147,7 +147,8 @@ def run(sid, tier, props, inplace):
             if caught:
                 msg = [l for l in r.stdout.splitlines() if l.strip() and not l.startswith('VIOLATION')]
                 res['first_lines'] = '\n'.join(msg[1:6])[:700]
-            meta['checks_run'] = [c for c in meta['checks_run'] if not (c['check'] == p and c['tier'] == tier)] + [res]
+            if r.returncode in (0, 1):  # exit 2 = the run itself broke (build error, timeout): says nothing about the change
+                meta['checks_run'] = [c for c in meta['checks_run'] if not (c['check'] == p and c['tier'] == tier)] + [res]
             print('%s vs %s (%s): exit %d %s' % (sid, p, tier, r.returncode, 'CAUGHT' if caught else ('MISSED' if r.returncode == 0 else 'INFRA')))
             if r.returncode == 2:
                 print(r.stdout[-1500:])
